@@ -108,6 +108,7 @@ Step == pos' = IF Mode = "mc" THEN 0 ELSE pos + 1
 
 TwinTag(r) == IF pc[r] = "Idle" \/ cfg[r].twin = "none" THEN "M" ELSE "P:" \o cfg[r].twin
 
+NoMemo(r) == Mode = "trace" /\ cfg[r].twin = "none"     \* single traced runs need no memo (keeps states small)
 Memo(q, a) == IF q \in DOMAIN orc THEN orc ELSE (q :> a) @@ orc
 MemoOK(q, a) == q \in DOMAIN orc => orc[q] = a
 
@@ -208,7 +209,7 @@ CheckTerminate(r, e) ==
         <<"P:C02", "timelimit.after", e.status = "TimeLimit" => tl>>,
         <<"P:C08", "deadline.stops", (~lim /\ dlx[r]) => e.status = "TimeLimit">>
      >>)
-  /\ orc' = IF lim \/ tl THEN orc ELSE Memo(q, e.obs)
+  /\ orc' = IF lim \/ tl \/ NoMemo(r) THEN orc ELSE Memo(q, e.obs)
   /\ status' = [status EXCEPT ![r] = e.status]
   /\ pc' = [pc EXCEPT ![r] = IF e.status = "none" THEN "Disp" ELSE "Fin"]
   /\ clk' = [clk EXCEPT ![r] = [@ EXCEPT !.fresh = FALSE]]
@@ -306,7 +307,7 @@ TrialEnd(r, e) ==
         <<"P:C05", "accept.inbox", e.kind = "accept" => e.inbox>>,
         <<"P:C15", "exact.solves", (e.kind = "accept" /\ cfg[r].ctl = "Exact") => e.resClass = "le">>
      >>)
-  /\ orc' = IF byDeadline THEN orc ELSE Memo(q, a)
+  /\ orc' = IF byDeadline \/ NoMemo(r) THEN orc ELSE Memo(q, a)
   /\ trial' = [trial EXCEPT ![r] = [t EXCEPT !.kind = e.kind, !.pt = e.pt, !.lambNext = e.lambNext,
                                              !.accepted = e.accepted,
                                              !.cause = IF byDeadline THEN "deadline" ELSE "none"]]
@@ -453,9 +454,10 @@ Return(r, e) ==
         <<"P:C01", "return.kkt", e.status = "Optimal" => UserKKT(e.kkt)>>,
         <<"P:C02", "return.infeasible.justified", e.status = "LocallyInfeasible" => (e.just.violGt /\ e.just.infStat)>>,
         <<"P:C02", "return.unbounded.justified", e.status = "Unbounded" => (e.just.feas /\ e.just.objLe)>>,
+        <<"P:C03", "wellposed.solved", cfg[r].wellposed => e.status = "Optimal">>,
         <<"P:C08", "deadline.returns.limit", dlx[r] => e.status \in {"TimeLimit", "IterationLimit"}>>
      >>)
-  /\ orc' = Memo(q, a)
+  /\ orc' = IF NoMemo(r) THEN orc ELSE Memo(q, a)
   /\ result' = [result EXCEPT ![r] = [status |-> e.status,
                                       x |-> IF cur[r] \in ToSet(e.xFrom) THEN cur[r] ELSE -2,
                                       iterations |-> e.iterations,
@@ -482,11 +484,12 @@ Raise(r, e) ==
         <<"P:C06", "raise.derivcheck.legit", e.kind = "DerivCheck" => (pc[r] = "Init" /\ cfg[r].derivCheck)>>,
         <<"P:C07", "init.fault.dedicated", (pc[r] = "Init" /\ inner[r].fault) => e.kind = "InitEval">>,
         <<"P:C07", "trial.fault.survived", (pc[r] \in {"InTrial", "Post"} /\ inner[r].fault) => e.kind = "LambMax">>,
+        <<"P:C03", "wellposed.no.raise", ~cfg[r].wellposed>>,
         <<"P:C08", "deadline.never.raises", (dlx[r] /\ cfg[r].twin = "C08") => twinAlsoAborts>>,
         <<"P:C09", "observer.never.raises", e.kind \notin DeliberateErrs => ~(cfg[r].debug \/ disp[r])>>,
         <<"P:C11", "raise.callerdata", e.changed = <<>>>>
      >>)
-  /\ orc' = Memo(q, e.kind)
+  /\ orc' = IF NoMemo(r) THEN orc ELSE Memo(q, e.kind)
   /\ err' = [err EXCEPT ![r] = e.kind]
   /\ pc' = [pc EXCEPT ![r] = "Raised"]
   /\ Step
